@@ -205,6 +205,26 @@ def run(repo: Repo, rep: Report, tier: str) -> None:
     residue_rule(repo, rep, R5, cg, clo, [ev.key])
     # rename the generic key so that evidence reads naturally
     lookup_order_rule(repo, rep, R6)
+    unary_marking_rule(repo, rep, "C10.R7", 6 if tier == "thorough" else 4)
+
+
+def unary_marking_rule(repo: Repo, rep: Report, rid: str, max_len: int) -> None:
+    rep.rule(rid, f"unary-minus marking, bounded-exhaustive: Expression._mark_unary_minus interpreted on every token list up to length {max_len} over "
+                  "{-, ~, (, ), number, +, <<} marks a '-' as unary exactly when it starts the list or follows '(' or an operator (a '-' just marked "
+                  "unary included: the rewrite is in place)")
+    from ..folds import fold_mark_unary_minus
+
+    fi = repo.func_opt("expression.py", "Expression._mark_unary_minus")
+    fold = fold_mark_unary_minus(repo, max_len)
+    if fold is None:
+        rep.ok(rid, "expression.py:Expression._mark_unary_minus:fold", "not foldable with the evaluator's whitelist (or the marking moved): rule R4 decides alone", "",
+               nontrivial=False)
+        return
+    bad = fold["bad"]
+    rep.info["unary_marking_token_lists"] = fold["cases"]
+    rep.check(not bad, rid, f"{fi.key}:fold", f"{fold['cases']} token lists agree with the specification",
+              f"token list {bad[0][0] if bad else ''} is marked {bad[0][1] if bad else ''}, expected {bad[0][2] if bad else ''}: a '-' that should be unary stays "
+              "binary (or the reverse), so e.g. '--1' or '3 * --2' no longer evaluates to its C value", fi.loc())
 
 
 def lookup_order_rule(repo: Repo, rep: Report, R6: str) -> None:
